@@ -872,6 +872,22 @@ vshim_ctor(void)
 	vshim_init();
 }
 
+/*
+ * VSHIM_OFF_AT_EXIT=1 (coverage measurement runs of tools/cov.py only): the
+ * program under test was built with --coverage and its runtime writes .gcda
+ * files from an exit-time destructor.  Registering the switch lazily, at the
+ * first interposed call made after main() started, places it in front of the
+ * dynamic linker's finaliser, so the switch runs before those destructors
+ * and their file traffic is neither traced, counted nor faulted.
+ */
+static int g_offatexit = -1;
+
+static void
+vshim_off(void)
+{
+	g_on = 0;
+}
+
 static inline int
 shim_on(void)
 {
@@ -879,6 +895,13 @@ shim_on(void)
 		if (g_state == 1)
 			return 0;
 		vshim_init();
+	}
+	if (g_offatexit == -1) {
+		const char *v = getenv("VSHIM_OFF_AT_EXIT");
+
+		g_offatexit = (v != NULL && *v == '1');
+		if (g_offatexit)
+			atexit(vshim_off);
 	}
 	return g_on;
 }
@@ -2323,6 +2346,20 @@ opendir(const char *path)
 
 		lb_begin(&l, &c);
 		lb_kv_s(&l, "path", path);
+		if (r != NULL) {
+			/*
+			 * opendir(3) opens the directory close-on-exec "by libc
+			 * contract"; the descriptor hygiene theorem (C13) rests
+			 * on it, so the flag of the stream's descriptor is
+			 * recorded and the canonicaliser insists on it.
+			 */
+			int fdfl;
+
+			REAL(fcntl);
+			fdfl = real_fcntl(dirfd(r), F_GETFD);
+			lb_kv_i(&l, "cloexec",
+			    (fdfl != -1 && (fdfl & FD_CLOEXEC)) ? 1 : 0);
+		}
 		lb_result(&l, r ? dirfd(r) : -1, r == NULL, e);
 		lb_end(&l, &c);
 	}
